@@ -127,7 +127,7 @@ func paramModel(out string) map[string]string {
 // runOverlayTest injects a test file into a package of /repo through -overlay and runs it with the
 // repository's own toolchain. Returns (failed, output).
 func runOverlayTest(eng *Engine, pkgRel, fileName, content, runPat string) (bool, string) {
-	dir := filepath.Join(eng.verifDir, "out", "replay", "overlay")
+	dir := filepath.Join(outBase(eng.verifDir), "replay", "overlay")
 	os.MkdirAll(dir, 0o755)
 	src := filepath.Join(dir, fileName)
 	os.WriteFile(src, []byte(content), 0o644)
